@@ -155,7 +155,10 @@ def run_copies_initial_state(U):
     def body(it):
         cls = it.module_attr(it.load_module("pde.solvers.controller"), "Controller")
         copies = []
-        original = Instance(None, {}, name="initial_state")
+        # the initial state may already hold complex numbers (arbitrary): whatever the code asks about its data
+        original = Instance(None, {"data": Instance(None, {"dtype": Opaque("dtype of the initial state")}, name="data of the initial state"),
+                                   "dtype": Opaque("dtype of the initial state"), "is_complex": z3.Bool("initial_state_is_complex")}, name="initial_state")
+        it.stub_modules["numpy"].attrs["iscomplexobj"] = lambda x: bool(it.ctx.branch(z3.Bool("initial_state_is_complex")))
 
         def copy(**kw):
             c = Instance(None, {"__copy_of__": original, "kw": kw}, name="copy")
@@ -191,7 +194,7 @@ def bounded(tier, seed):
     res = native("accounting.py", {"seed": seed, "n": n}, timeout=3000)
     if not res.get("ok"):
         raise RuntimeError(f"native driver failed: {res}")
-    return [{"name": "solve_with_trackers_step_accounting", "bound": f"{n} random (dt, N, t_start, tracker intervals) instances, dt in decimal and binary fractions, both backends",
+    return [{"name": "solve_with_trackers_step_accounting", "bound": f"{n} random (dt, N, t_start, tracker intervals) instances, dt in decimal and binary fractions, both backends; complex-valued equation with real and complex initial states (the run works on a copy)",
              "cases": res["cases"], "failures": res["failures"]}]
 
 
